@@ -100,6 +100,7 @@ def handle : List String → String
       showV (checkStatus sc status credId pc l)
     | _, _, _, _, _ => "bad-request"
   | "roundtrip" :: _ => "ok"
+  | "dense" :: _ => "ok"
   | _ => "bad-request"
 
 end Driver.C12
